@@ -143,6 +143,20 @@ class SubKid(Component):
         await compreg.CURRENT.sub_phase(self.sid, "kid", "start")
 
 
+def all_subs(plan: dict) -> list:
+    """(owner path, phase, spec) of every nested start-up of the plan: those called from a
+    phase and those a service task makes later on."""
+    out = []
+    for p_, n_ in walk(plan["tree"]):
+        for ph_ in ("prepare", "start"):
+            for a_ in n_.get(ph_) or ():
+                if a_[0] == "sub":
+                    out.append((p_, ph_, a_[1]))
+                elif a_[0] == "svc" and a_[1].get("later_sub"):
+                    out.append((p_, "service", a_[1]["later_sub"]))
+    return out
+
+
 def sub_model(spec: dict) -> dict:
     """What a nested start_component() does, relative to the instant it is called."""
     d0, d1, d2 = spec["d"]
@@ -214,9 +228,8 @@ class H:
         self.round = 0
         self.ndecoy = 0
         self.block_ended = anyio.Event()
-        self.subspecs: dict[str, dict] = {
-            a[1]["sid"]: a[1] for _p, n in walk(plan["tree"]) for ph in ("prepare", "start") for a in n.get(ph) or () if a[0] == "sub"
-        }
+        self.sc_done = anyio.Event()
+        self.subspecs: dict[str, dict] = {sp["sid"]: sp for _p, _ph, sp in all_subs(plan)}
 
     # ---- nested sub-trees
     def sub_exc(self, spec: dict, where: str) -> BaseException:
@@ -351,6 +364,11 @@ class H:
                 self.pub(a[1], path, phase)
             elif op == "wait":
                 await self.wait(a[1], path, phase)
+            elif op == "pwait":
+                # the component waits for several resources at once (one task each)
+                async with anyio.create_task_group() as wtg:
+                    for w in a[1]:
+                        wtg.start_soon(self.wait, w, path, phase, name=f"w:{path}:{w['wid']}")
             elif op == "burst":
                 self.burst(a[1], path)
             elif op == "td":
@@ -470,24 +488,34 @@ class H:
             raise
         sim.log("wait_end", wid=wid, path=path, out="ok", val=self.vtag(v))
 
-    def td(self, spec: dict, path: str) -> None:
+    def td(self, spec: dict, path: str, late: bool = False) -> None:
         sim = self.sim
         tdid = spec["id"]
+        nested = spec.get("nested")
+        h = self
+
+        def follow_up() -> None:
+            # a callback registered while the teardown is already running
+            if nested:
+                h.td(nested, path, late=True)
+
         if spec.get("async"):
 
             async def cb() -> None:
                 sim.log("td_run", td=tdid)
                 await sim.pause(0, spec.get("dur", 0.0))
+                follow_up()
                 sim.log("td_done", td=tdid)
 
         else:
 
             def cb() -> None:  # type: ignore[misc]
                 sim.log("td_run", td=tdid)
+                follow_up()
                 sim.log("td_done", td=tdid)
 
         add_teardown_callback(cb)
-        sim.log("td_reg", td=tdid, path=path)
+        sim.log("td_reg", td=tdid, path=path, late=late)
 
     async def svc(self, spec: dict, path: str) -> None:
         sim = self.sim
@@ -500,6 +528,12 @@ class H:
                 sim.log("svc_start", svc=name, parent_is_real=c.parent is h.real, fresh=c is not h.real)
                 await sim.pause(0, spec.get("delay", 0.0))
                 task_status.started(name)
+                if spec.get("later_sub"):
+                    # long after the start-up that spawned this task has ended, the task
+                    # starts a component tree of its own, with a timeout of its own
+                    await h.sc_done.wait()
+                    await sim.pause(0, spec["later_sub"].get("delay", 0.0))
+                    await h.sub(spec["later_sub"], f"svc:{name}", "service")
                 if spec.get("action") == "none":
                     # nobody stops this task: it ends by itself a little after the calling
                     # context's block has ended, and teardown has to wait for that
@@ -588,6 +622,9 @@ def plan_duration(plan: dict) -> float:
                     total += a[1]["fdur"]
                 elif a[0] == "svc":
                     total += a[1].get("delay", 0.0)
+                    if a[1].get("later_sub"):
+                        ls = a[1]["later_sub"]
+                        total += ls.get("delay", 0.0) + min(sum(ls["d"]), (ls.get("timeout") or 20) + 0.5)
                 elif a[0] == "sub":
                     total += sum(a[1]["d"])
     return total
@@ -620,6 +657,12 @@ def make_main(plan: dict):
                         outer = await outer_stack.enter_async_context(Context())
                         outer.add_resource(object(), "outer_marker")
                     real_ctx = Context()
+                    if plan.get("noisy_listener") is not None:
+                        # an earlier subscriber of resource_added with a tiny queue nobody
+                        # drains: it overflows at once and must not affect the waiters
+                        await outer_stack.enter_async_context(
+                            real_ctx.resource_added.stream_events(max_queue_size=plan["noisy_listener"])
+                        )
                     # a listener on the calling context (opened before it is entered) hears
                     # every publication the components make, under the name it really got
                     ev_stream = await outer_stack.enter_async_context(
@@ -629,6 +672,7 @@ def make_main(plan: dict):
                     h.real = ctx
                     h.instances = {}
                     h.block_ended = anyio.Event()
+                    h.sc_done = anyio.Event()
                     t0 = sim.now()
                     sim.log("sc_call", t=t0, round=rnd)
                     kw: dict[str, Any] = {}
@@ -669,6 +713,7 @@ def make_main(plan: dict):
                                 same=comp is h.instances.get(""),
                                 round=rnd,
                             )
+                    h.sc_done.set()
                     # configuration must be intact after every ending
                     ids1: dict = {}
                     _ids(cfg, ids1)
@@ -712,6 +757,9 @@ def make_main(plan: dict):
             else:
                 sim.log("ctx_exit", exc=None, round=rnd)
         sizes = sorted({str(w.message).split("(")[1].split(")")[0] for w in wlist if "Queue full (" in str(w.message)})
+        if plan.get("noisy_listener") is not None:
+            # the deliberately tiny queue of the extra listener overflows by design
+            sizes = [x for x in sizes if x != str(plan["noisy_listener"])]
         if sizes:
             sim.log("queue_overflow", sizes=sizes, n=len(wlist))
         _wctx.__exit__(None, None, None)
@@ -835,6 +883,21 @@ def model_timeline(plan: dict) -> dict:
                             genstart[rid_] = t
                             changed = True
                         t = max(t, genstart[rid_] + dur_)
+                elif op == "pwait":
+                    tmax = t
+                    for w_ in a[1]:
+                        key = (w_["t"], w_["name"])
+                        if key not in pubtime:
+                            return None
+                        tw = max(t, pubtime[key])
+                        if key in fdur_of:
+                            rid_, dur_ = fdur_of[key]
+                            if rid_ not in genstart or tw < genstart[rid_]:
+                                genstart[rid_] = tw
+                                changed = True
+                            tw = max(tw, genstart[rid_] + dur_)
+                        tmax = max(tmax, tw)
+                    t = tmax
                 elif op == "fail":
                     fail_at.append((t, path, phase))
                     return None
@@ -1169,19 +1232,16 @@ def oracle(sim: Sim, plan: dict) -> list[dict]:
             if begun and sc_end[4] != "sc_return":
                 v("C07.clean", "still_running", f"start_component ended ({sc_end[4]}) while {sorted(begun)} had not exited")
             for r in tr:
-                if r[0] > end_seq and r[4] in PHASE_KINDS:
+                if r[0] > end_seq and r[4] in PHASE_KINDS and not (r[4] == "td_reg" and r[5].get("late")):
                     rule = "C05.return" if sc_end[4] == "sc_return" else "C07.clean"
                     v(rule, "activity_after_end", f"component activity after start_component ended: {r[4]} {r[5]}")
                     break
 
         # ---------------------------------------------------------------- nested sub-trees
         any_stall = any(a_[0] == "stall" for _p, n_ in walk(oplan["tree"]) for ph_ in ("prepare", "start") for a_ in n_.get(ph_) or ())
-        for path_, n_ in walk(oplan["tree"]):
-            for ph_ in ("prepare", "start"):
-                for a_ in n_.get(ph_) or ():
-                    if a_[0] != "sub":
-                        continue
-                    spec_ = a_[1]
+        for path_, ph_, spec_ in all_subs(oplan):
+            for _once in (0,):
+                for _once2 in (0,):
                     sid = spec_["sid"]
                     sb = next((r for r in tr if r[4] == "sub_begin" and r[5]["sid"] == sid), None)
                     se = next((r for r in tr if r[4] == "sub_end" and r[5]["sid"] == sid), None)
@@ -1206,9 +1266,17 @@ def oracle(sim: Sim, plan: dict) -> list[dict]:
                         if open_ph:
                             v("C07.clean", "nested_still_running", f"nested start-up {sid} ended ({se[5]['out']}) while {sorted(open_ph)} had not exited")
                     d_ = se[5]
-                    if d_["out"] == "cancelled":
-                        continue  # the outer start-up ended first (timeout, failure elsewhere)
                     m_ = sub_model(spec_)
+                    if d_["out"] == "cancelled":
+                        # the surroundings ended first (outer timeout, failure elsewhere, the
+                        # calling context was left) - fine unless the nested start-up should
+                        # have ended by itself well before that
+                        if m_["kind"] != "tie" and not any_stall and exact_time and d_["dt"] > m_["dt"] + 1e-9 and not d_.get("mixed"):
+                            if m_["kind"] == "timeout":
+                                v("C07.timeout", "nested_not_raised", f"nested start-up {sid} was still running {d_['dt']} after it began; its timeout is {m_['dt']}")
+                            else:
+                                v("C07.prompt", "nested_lingering", f"nested start-up {sid} was still running {d_['dt']} after it began; it should have ended ({m_['kind']}) after {m_['dt']}")
+                        continue
                     sim.probe("nested:" + m_["kind"])
                     if m_["kind"] == "tie" or any_stall:
                         continue  # (a stalled scheduler makes every deadline in the run late)
@@ -1343,9 +1411,24 @@ def oracle(sim: Sim, plan: dict) -> list[dict]:
             if early:
                 v("C05.ownership", "torn_down_early", f"teardown callbacks {early} ran before the calling context was left")
                 v("C07.ownership", "torn_down_early", f"teardown callbacks {early} ran before the calling context was left")
-            if runs != list(reversed(regs)):
-                rule = "C05.ownership" if sc_end[4] == "sc_return" else "C07.ownership"
+            # a stack: callbacks registered during the teardown go on top and run next
+            stack_: list = []
+            order_ok = True
+            for r in tr:
+                if r[4] == "td_reg":
+                    stack_.append(r[5]["td"])
+                elif r[4] == "td_run":
+                    if stack_ and stack_[-1] == r[5]["td"]:
+                        stack_.pop()
+                    else:
+                        order_ok = False
+                        if r[5]["td"] in stack_:
+                            stack_.remove(r[5]["td"])
+            rule = "C05.ownership" if sc_end[4] == "sc_return" else "C07.ownership"
+            if not order_ok:
                 v(rule, "teardown_order", f"teardown callbacks ran {runs}; registered (in order) {regs}")
+            elif stack_:
+                v(rule, "teardown_missing", f"teardown callbacks {stack_} were registered (some of them while the teardown was running) but never ran; ran {runs}")
             # callbacks registered before a service task was up run only after it has ended;
             # later ones before it is stopped (LIFO position of the task's finalizer)
             for sr in [r for r in tr if r[4] == "svc_reg"]:
@@ -1402,6 +1485,9 @@ def _has_giveup(plan: dict) -> bool:
 def _overflow50(sim: Sim) -> bool:
     wl = sim.user.get("wlist") or []
     sizes = {str(w.message).split("(")[1].split(")")[0] for w in wl if "Queue full (" in str(w.message)}
+    noisy = sim.plan.get("noisy_listener")
+    if noisy is not None:
+        sizes.discard(str(noisy))
     return sizes == {"50"}
 
 
@@ -1596,9 +1682,19 @@ class G:
                     w: dict[str, Any] = {"wid": f"w{self.nw}", "t": ti, "name": nm}
                     if rng.random() < 0.12 and not fdur:
                         w["opt"] = True
-                    elif self.prop == "C06" and isfac and fdur and rng.random() < 0.4:
+                    elif self.prop in ("C06", "C05") and isfac and fdur and rng.random() < (0.4 if self.prop == "C06" else 0.25):
                         # this waiter loses patience while the factory is still working
                         w["giveup"] = rng.choice((0.25, 0.5, 1.0))
+                    if self.prop in ("C06", "C05") and len(avail) >= 2 and "giveup" not in w and "opt" not in w and rng.random() < 0.2:
+                        # the component waits for two different resources at the same time
+                        others = [x for x in avail if (x[0], x[1]) != (ti, nm) and not x[3]]
+                        if others:
+                            ti2, nm2, _f2, _d2 = rng.choice(others)
+                            self.nw += 1
+                            pair = [w, {"wid": f"w{self.nw}", "t": ti2, "name": nm2}]
+                            rng.shuffle(pair)
+                            acts.append(["pwait", pair])
+                            continue
                     acts.append(["wait", w])
                 elif r < 0.8 and self.nt < len(RT) - 2:
                     self.nt += 1
@@ -1630,7 +1726,11 @@ class G:
                         here.append((spec["t2"], fn, bool(spec.get("fac")), spec.get("fdur")))
                 elif r < 0.86:
                     self.ntd += 1
-                    acts.append(["td", {"id": f"cb{self.ntd}", "async": rng.random() < 0.5, "dur": rng.choice(DTS[:4])}])
+                    tdspec: dict[str, Any] = {"id": f"cb{self.ntd}", "async": rng.random() < 0.5, "dur": rng.choice(DTS[:4])}
+                    if rng.random() < 0.2:
+                        self.ntd += 1
+                        tdspec["nested"] = {"id": f"cb{self.ntd}", "async": rng.random() < 0.5, "dur": rng.choice(DTS[:3])}
+                    acts.append(["td", tdspec])
                 elif r < 0.9 and self.nsvc < 3:
                     self.nsvc += 1
                     sv: dict[str, Any] = {"name": f"s{self.nsvc}", "delay": rng.choice((0.0, 0.0, 0.5))}
@@ -1756,6 +1856,28 @@ def _add_subs(plan: dict, nodes: list, rng: random.Random, may_fail: bool) -> No
         plan["timeout"] = max(plan["timeout"], F + 1.0)
 
 
+def _add_later_sub(plan: dict, nodes: list, rng: random.Random) -> None:
+    """A service task started by a component runs a start-up of its own (with its own,
+    usually too short, timeout) some time after the start-up that spawned it has ended."""
+    cands = [(p, n, ph) for p, n in nodes for ph in ("prepare", "start") if n.get(ph) is not None and not any(a[0] == "fail" for a in n[ph])]
+    if not cands:
+        return
+    p, n, ph = rng.choice(cands)
+    spec: dict[str, Any] = {
+        "sid": "v0",
+        "delay": rng.choice((0.0, 0.25, 1.0)),
+        "d": [rng.choice((0.5, 1.0, 2.0)), rng.choice((0.5, 1.0, 2.0)), rng.choice((0.0, 1.0))],
+        "kid": rng.random() < 0.7,
+        "timeout": rng.choice((0.375, 0.75, 1.125, 1.625, 2.5, 5.0)),
+    }
+    n[ph].insert(rng.randint(0, len(n[ph])), ["svc", {"name": "sv0", "delay": 0.0, "later_sub": spec}])
+    if rng.random() < 0.7 and "timeout" not in plan:
+        # a deadline of the spawning start-up that lies shortly after its end
+        F = model_timeline(expand_subs(plan)[0])["finish"]
+        if F is not None:
+            plan["timeout"] = F + rng.choice((0.25, 0.5, 1.0))
+
+
 def gen(rng: random.Random, tier: str, prop: str) -> dict:
     g = G(rng, tier, prop)
     backend = "asyncio" if rng.random() < 0.6 else "trio"
@@ -1833,6 +1955,10 @@ def gen(rng: random.Random, tier: str, prop: str) -> dict:
             plan["timeout"] = rng.choice((None, 20, 1000))
     if prop == "C07" and rng.random() < 0.3:
         _add_subs(plan, nodes, rng, may_fail=r >= fail_p)
+    if prop == "C07" and rng.random() < 0.15:
+        _add_later_sub(plan, nodes, rng)
+    if prop in ("C06", "C05", "C18") and rng.random() < 0.15:
+        plan["noisy_listener"] = rng.choice((0, 1, 2))
     if prop == "C14":
         if rng.random() < 0.35:
             plan["twice"] = True
